@@ -83,20 +83,26 @@ pub fn card_name(deck_index: usize) -> String {
 /// accident. Deliberately absent: spellings a parser might one day accept on purpose ("10S",
 /// suit-before-rank, the single playing-card code points); C12 says they are not cards today,
 /// but this check does not need to be the one that objects to such an extension.
-pub const JUNK: [&str; 21] = [
+pub const JUNK: [&str; 28] = [
     "XX", "__", "--", "??", "A", "s", "1S", "AX", "ZZZ", "\u{FE0F}T\u{2664}",
     "\u{212A}♠", "\u{212A}s", "A\u{17F}", "K\u{17F}", "\u{FF21}S", "\u{FF21}\u{FF33}", "\u{1D400}S", "\u{0410}S", "\u{041A}\u{2660}", "Ａ♠", "ａｓ",
+    "\u{01F0}s", "\u{1E97}h", "\u{1E9A}\u{2660}", "A\u{1E96}", "A\u{DF}", "K\u{FB05}", "Q\u{FB06}",
 ];
 
 /// Tails appended to a card spelling; by C12 the token is still that card.
 pub const TAILS: [&str; 6] = ["", "x", "♠", "0", "ss", "!"];
 
-/// Separators 0..5 are ASCII whitespace; 6..11 are other characters with the Unicode
-/// White_Space property (what Rust's `char::is_whitespace` / `split_whitespace` mean by
-/// whitespace): no-break space, ideographic space, em space, vertical tab, next line,
-/// line separator.
-pub const SEPARATORS: [&str; 12] = [" ", "  ", "\t", "\n", " \t ", "\r\n", "\u{00A0}", "\u{3000}", "\u{2003}", "\u{000B}", "\u{0085}", "\u{2028}"];
-pub const ASCII_SEPARATORS: usize = 6;
+/// Every character with the Unicode White_Space property (what Rust's `char::is_whitespace` /
+/// `split_whitespace` mean by whitespace) occurs as a separator. Entries 0..7 consist of ASCII
+/// whitespace only (space, two spaces, TAB, LF, " \t ", CR LF, FF, lone CR); entries 8.. are the
+/// rest: VT, NEL, no-break space, ogham space mark, U+2000..U+200A, line and paragraph separator,
+/// narrow no-break space, medium mathematical space, ideographic space.
+pub const SEPARATORS: [&str; 28] = [
+    " ", "  ", "\t", "\n", " \t ", "\r\n", "\u{000C}", "\r",
+    "\u{000B}", "\u{0085}", "\u{00A0}", "\u{1680}", "\u{2000}", "\u{2001}", "\u{2002}", "\u{2003}", "\u{2004}", "\u{2005}", "\u{2006}", "\u{2007}", "\u{2008}", "\u{2009}", "\u{200A}",
+    "\u{2028}", "\u{2029}", "\u{202F}", "\u{205F}", "\u{3000}",
+];
+pub const ASCII_SEPARATORS: usize = 8;
 
 #[cfg(test)]
 mod tests {
@@ -135,7 +141,7 @@ mod tests {
         for i in 0..52 {
             for sp in 0..spellings(i) {
                 assert!(is_card(&spelling(i, sp)));
-                for mode in 0..6 {
+                for mode in 0..8 {
                     let a = alias_spelling(i, sp, mode);
                     assert!(!is_card(&a), "alias {:?} is a card", a);
                     assert!(!a.chars().any(char::is_whitespace));
@@ -153,12 +159,48 @@ mod tests {
     }
 }
 
+/// Characters that are not a rank or suit symbol themselves but whose upper- or lower-case mapping
+/// *begins* with one (one-to-one like KELVIN SIGN -> k and LONG S -> S, and one-to-many like
+/// U+01F0 -> "J" + caron, U+1E97 -> "T" + diaeresis, U+1E9A -> "A" + modifier, sharp s -> "SS"),
+/// computed from the standard library's own case tables: (look-alike, the symbol it folds to).
+pub fn fold_aliases() -> &'static Vec<(char, char)> {
+    use std::sync::OnceLock;
+    static CELL: OnceLock<Vec<(char, char)>> = OnceLock::new();
+    CELL.get_or_init(|| {
+        let mut symbols: Vec<char> = RANK_UPPER.iter().chain(RANK_LOWER.iter()).copied().chain(['0']).collect();
+        symbols.extend(SUIT_SPELL.iter().flatten().copied());
+        let mut out = Vec::new();
+        for cp in 0x80u32..0x11_0000 {
+            let Some(c) = char::from_u32(cp) else { continue };
+            if symbols.contains(&c) || c.is_whitespace() {
+                continue;
+            }
+            for f in [c.to_uppercase().next(), c.to_lowercase().next()].into_iter().flatten() {
+                if f != c && symbols.contains(&f) {
+                    out.push((c, f));
+                }
+            }
+        }
+        out
+    })
+}
+
 /// A non-card token derived from a card spelling by moving one or both of its two leading
 /// characters to a code point that agrees with the original only in its low 16 bits (modes 0-2)
 /// or low 8 bits (modes 3-5). Code that narrows `char` before comparing confuses them.
 pub fn alias_spelling(deck_index: usize, which: usize, mode: usize) -> String {
     let sp = spelling(deck_index, which);
     let mut cs: Vec<char> = sp.chars().collect();
+    if mode % 8 >= 6 {
+        // modes 6, 7: the first / second character replaced by a case-folding look-alike of it
+        // (falls through to the narrowing aliases when the character has none)
+        let pos = mode % 8 - 6;
+        let cands: Vec<char> = fold_aliases().iter().filter(|(_, f)| f.eq_ignore_ascii_case(&cs[pos]) || *f == cs[pos]).map(|(c, _)| *c).collect();
+        if !cands.is_empty() {
+            cs[pos] = cands[(deck_index + which) % cands.len()];
+            return cs.into_iter().collect();
+        }
+    }
     let (first, second, delta) = match mode % 6 {
         0 => (true, false, 0x1_0000u32),
         1 => (false, true, 0x1_0000),
